@@ -79,4 +79,12 @@ Next == /\ ~done /\ done' = TRUE
               PrintT(<<"TAG", ToJson([sid |-> t.sid, proto |-> t.proto, group |-> t.group, ids |-> SortedSeq(t.ids), thr |-> t.thr,
                                       idslice |-> IDSliceData(SortedSeq(t.ids))])>>)
 Inv == TagInjective /\ NoConcatAmbiguity
+
+\* The "Aux" item of a CMP session that works on existing key material is the configuration: threshold, participants, RID
+\* and, per party, the public ECDSA share, the ElGamal key, the Paillier key and the Pedersen parameters
+\* (protocols/cmp/config/config.go:WriteTo).  The model treats the item as one opaque byte string (m1 # m2 give different
+\* tags: TagInjective); that the real byte string depends on each of these fields is checked on the code: two configurations
+\* that differ in exactly one listed field must give different real tags (cmd/ssiddrv, auxSensitivity).
+AuxFields == {"rid", "ecdsa", "elgamal", "paillier", "pedersen"}
+ASSUME PrintT(<<"AUXF", ToJson(AuxFields)>>)
 =============================================================================
